@@ -149,7 +149,9 @@ type ByzStrategy struct {
 	LateDeal  bool // commitment and evals land in the first block after the dealing phase
 	LateAcc   bool
 	LateApo   bool
-	DealOff   int // block offset inside the phase when not late (0..L-1)
+	EarlyAcc  bool // accusation already in the last blocks of the dealing phase (outside the stated alphabet)
+	EarlyApo  bool // apology already in the last blocks of the accusing phase
+	DealOff   int  // block offset inside the phase when not late (0..L-1)
 	AccOff    int
 	ApoOff    int
 	VoteFalse bool // votes DKGResult(false) never: kept false (outside the alphabet)
@@ -165,9 +167,12 @@ func (s ByzStrategy) String() string {
 	for _, k := range ks {
 		ev = append(ev, fmt.Sprintf("%d:%s", k, evNames[s.Eval[k]]))
 	}
-	tm := func(late bool, off int) string {
+	tm := func(late bool, off int, early ...bool) string {
 		if late {
 			return "late"
+		}
+		if len(early) > 0 && early[0] {
+			return fmt.Sprintf("early-%d", 1+off%3)
 		}
 		return fmt.Sprintf("+%d", off)
 	}
@@ -176,7 +181,7 @@ func (s ByzStrategy) String() string {
 		cm += fmt.Sprintf("%+d", s.DegDelta)
 	}
 	return fmt.Sprintf("{cm=%s@%s ev=[%s] acc=%v@%s apo=%s@%s}", cm, tm(s.LateDeal, s.DealOff),
-		strings.Join(ev, ","), s.Accuse, tm(s.LateAcc, s.AccOff), apNames[s.Apology], tm(s.LateApo, s.ApoOff))
+		strings.Join(ev, ","), s.Accuse, tm(s.LateAcc, s.AccOff, s.EarlyAcc), apNames[s.Apology], tm(s.LateApo, s.ApoOff, s.EarlyApo))
 }
 
 type stall struct{ Pos, From, Len int } // keyper at config position Pos takes no step in blocks h0+From .. h0+From+Len-1
@@ -260,9 +265,10 @@ type Node struct {
 	Core   *keyper.KeyperCore
 	Client *Client
 
-	Restarts   int
-	StepErrors []string
-	Panics     []string
+	Restarts     int
+	syncedBefore int64 // highest applied block before the current iteration (C08 bookkeeping)
+	StepErrors   []string
+	Panics       []string
 }
 
 func makeConfig(u int, phaseLen int64) *kprconfig.Config {
@@ -375,9 +381,10 @@ type Run struct {
 	h0  int64 // height of the EonStarted event (0: not yet)
 	eon uint64
 
-	sched []string // schedule descriptor
+	sched         []string // schedule descriptor
+	plainSchedule bool     // use the plain fair schedule also for the DKG blocks
 	// hooks for C08
-	StepHook func(r *Run, n *Node, budget int) error // replaces n.step if set
+	StepHook   func(r *Run, n *Node, budget int) error // replaces n.step if set
 	AfterBlock func(r *Run, closed int64)
 
 	keyperPanics []string
@@ -550,9 +557,12 @@ func (r *Run) act(b *byzActor) {
 		}
 		return b.poly.EvalForKeyper(p)
 	}
-	target := func(phase int64, late bool, off int) int64 {
+	target := func(phase int64, late bool, off int, early ...bool) int64 {
 		if late {
 			return r.h0 + (phase+1)*L
+		}
+		if len(early) > 0 && early[0] {
+			return r.h0 + phase*L - 1 - int64(off%3)
 		}
 		return r.h0 + phase*L + int64(off)
 	}
@@ -606,7 +616,7 @@ func (r *Run) act(b *byzActor) {
 		}
 	}
 	// accusing
-	if !b.accused && len(st.Accuse) > 0 && H >= target(1, st.LateAcc, st.AccOff) {
+	if !b.accused && len(st.Accuse) > 0 && H >= target(1, st.LateAcc, st.AccOff, st.EarlyAcc) {
 		b.accused = true
 		var acc []common.Address
 		for _, p := range st.Accuse {
@@ -615,7 +625,7 @@ func (r *Run) act(b *byzActor) {
 		r.submitByz(b, shmsg.NewAccusation(r.eon, acc), "accuse")
 	}
 	// apologizing: answer every accusation against b that is on chain so far, once
-	if st.Apology != apNone && H >= target(2, st.LateApo, st.ApoOff) {
+	if st.Apology != apNone && H >= target(2, st.LateApo, st.ApoOff, st.EarlyApo) {
 		var accusers []common.Address
 		var evals []*big.Int
 		for _, tx := range r.chain.AllTxs {
@@ -791,7 +801,7 @@ func (r *Run) execute() error {
 	end := r.h0 + 3*r.sc.L
 	for r.chain.OpenHeight() <= end {
 		r.l1 = l1Vote + uint64(r.chain.OpenHeight()-r.h0)
-		r.block(true)
+		r.block(!r.plainSchedule)
 	}
 	tail := r.sc.Tail
 	if tail == 0 {
@@ -1218,7 +1228,6 @@ func (r *Run) history() string {
 	}
 	return fmt.Sprintf("scenario: %s\neon=%d h0=%d\nschedule: %s\n%s\nstep errors: %v", r.sc.String(), r.eon, r.h0, strings.Join(r.sched, " "), strings.Join(bz, "\n"), r.stepErrors)
 }
-
 
 func msgKind(tx *TxRec) string {
 	m := tx.Msg
